@@ -1636,9 +1636,15 @@ public:
       return;
     }
 
-    linear_expression_t e(x);
-    term_id_t tx(build_linexpr(e));
-    rebind_var(y, tx);
+    // y becomes a copy of x that is NOT related to x. Binding y to
+    // the term of x would make them equal: y gets a fresh term whose
+    // domain variable is an expanded copy of the one of x.
+    term_id_t tx = term_of_var(x);
+    term_id_t ty = _ttbl.fresh_var();
+    dom_var_t dx = domvar_of_term(tx);
+    dom_var_t dy = domvar_of_term(ty);
+    _impl.expand(dx, dy);
+    rebind_var(y, ty);
 
     check_terms(__LINE__);
   }
